@@ -380,6 +380,54 @@ theorem mem_addSupLink {ls : List SupLink} {src h : Nat} {s : Sig} {l' : SupLink
           · exact Or.inl h
           · exact Or.inr ⟨l0, List.mem_cons_of_mem _ hl0, h3⟩
 
+/-- the same for the header-level merge (entry identified by source hash AND declared source height) -/
+theorem mem_addSupLinkH {ls : List SupLink} {src h : Nat} {s : Sig} {l' : SupLink}
+    (hm : l' ∈ addSupLinkH ls src h s) :
+    l' ∈ ls ∨ (l'.src = src ∧ l'.srcHeight = h ∧
+      ∀ x ∈ l'.sigs, x = s ∨ ∃ l ∈ ls, l.src = src ∧ l.srcHeight = l'.srcHeight ∧ x ∈ l.sigs) := by
+  induction ls with
+  | nil =>
+    simp only [addSupLinkH, List.mem_singleton] at hm
+    subst hm
+    exact Or.inr ⟨rfl, rfl, fun x hx => Or.inl (by simpa using hx)⟩
+  | cons l ls ih =>
+    unfold addSupLinkH at hm
+    by_cases hl : (l.src == src && l.srcHeight == h) = true
+    · simp only [hl, if_true, List.mem_cons] at hm
+      have hl' : l.src = src ∧ l.srcHeight = h := by simpa using hl
+      rcases hm with hm | hm
+      · subst hm
+        refine Or.inr ⟨hl'.1, hl'.2, fun x hx => ?_⟩
+        rcases mem_setSig hx with h1 | h1
+        · exact Or.inl h1
+        · exact Or.inr ⟨l, List.mem_cons_self, hl'.1, rfl, h1⟩
+      · exact Or.inl (List.mem_cons_of_mem _ hm)
+    · simp only [hl, Bool.false_eq_true, if_false, List.mem_cons] at hm
+      rcases hm with hm | hm
+      · exact Or.inl (hm ▸ List.mem_cons_self)
+      · rcases ih hm with h1 | ⟨h1, h2, h3⟩
+        · exact Or.inl (List.mem_cons_of_mem _ h1)
+        · refine Or.inr ⟨h1, h2, fun x hx => ?_⟩
+          rcases h3 x hx with h4 | ⟨l0, hl0, h5⟩
+          · exact Or.inl h4
+          · exact Or.inr ⟨l0, List.mem_cons_of_mem _ hl0, h5⟩
+
+/-- the header-level merge always leaves an entry with exactly the given source hash AND source height
+    that holds the added signature -/
+theorem addSupLinkH_has (ls : List SupLink) (src h : Nat) (s : Sig) :
+    ∃ l ∈ addSupLinkH ls src h s, l.src = src ∧ l.srcHeight = h ∧ s ∈ l.sigs := by
+  induction ls with
+  | nil => exact ⟨{ src := src, srcHeight := h, sigs := [s] }, by simp [addSupLinkH], rfl, rfl, by simp⟩
+  | cons a ls ih =>
+    unfold addSupLinkH
+    by_cases ha : (a.src == src && a.srcHeight == h) = true
+    · have ha' : a.src = src ∧ a.srcHeight = h := by simpa using ha
+      simp only [ha, if_true]
+      exact ⟨_, List.mem_cons_self, ha'.1, ha'.2, by simp [setSig]⟩
+    · simp only [ha, Bool.false_eq_true, if_false]
+      obtain ⟨l, hl, h1⟩ := ih
+      exact ⟨l, List.mem_cons_of_mem _ hl, h1⟩
+
 /-- a link that was there keeps (or extends) its slots -/
 theorem addSupLink_keeps {ls : List SupLink} {src h : Nat} {s : Sig} {l : SupLink}
     (hn : ∀ l ∈ ls, (l.sigs.map (·.slot)).Nodup) (hm : l ∈ ls) :
